@@ -8,6 +8,8 @@ import (
 	"strings"
 )
 
+var altPatternRounds = 3
+
 type sx struct {
 	atom string
 	kids []*sx
@@ -202,28 +204,41 @@ func inferPatterns(body string, binders []string) string {
 		}
 		return cs[i].size < cs[j].size
 	})
-	covered := map[string]bool{}
-	var chosen []string
-	for _, c := range append(cs, cands...) {
-		adds := false
-		for v := range c.vs {
-			if !covered[v] {
-				adds = true
+	// several alternative multi-patterns over disjoint candidate sets: a single
+	// choice is brittle (the chosen term may only occur on an older heap version)
+	used := map[string]bool{}
+	var pats []string
+	for round := 0; round < altPatternRounds; round++ {
+		covered := map[string]bool{}
+		var chosen []string
+		for _, c := range append(append([]cand{}, cs...), cands...) {
+			if used[c.text] {
+				continue
+			}
+			adds := false
+			for v := range c.vs {
+				if !covered[v] {
+					adds = true
+				}
+			}
+			if !adds {
+				continue
+			}
+			for v := range c.vs {
+				covered[v] = true
+			}
+			chosen = append(chosen, c.text)
+			if len(covered) == all {
+				break
 			}
 		}
-		if !adds {
-			continue
-		}
-		for v := range c.vs {
-			covered[v] = true
-		}
-		chosen = append(chosen, c.text)
-		if len(covered) == all {
+		if len(covered) != all {
 			break
 		}
+		for _, t := range chosen {
+			used[t] = true
+		}
+		pats = append(pats, ":pattern ("+strings.Join(chosen, " ")+")")
 	}
-	if len(covered) != all {
-		return ""
-	}
-	return ":pattern (" + strings.Join(chosen, " ") + ")"
+	return strings.Join(pats, " ")
 }
